@@ -22,7 +22,7 @@ func c47eq(a, b []byte) bool {
 // unknown varint field interleaved and optionally with the message split in two fields, is read
 // back as (type_id, message bytes, full length); SizeField accounts for the framing exactly.
 //
-//verif:props=C47 bounds=type-id-1..MaxInt32;body<=3-bytes;second-body<=2-bytes;both-orders;optional-unknown-field
+//verif:props=C47 bounds=type-id-1..MaxInt32;body<=3-bytes;second-body<=2-bytes;both-orders;optional-unknown-field;minimal-and-non-minimal-length-prefix
 func H_C47_item() {
 	id := nd.Int32()
 	nd.Assume(id >= 1)
@@ -41,9 +41,17 @@ func H_C47_item() {
 		b = protowire.AppendTag(b, FieldTypeID, protowire.VarintType)
 		b = protowire.AppendVarint(b, uint64(id))
 	}
+	nonMinimal := nd.Bool() // the first message field's length prefix as a non-minimal 2-byte varint
+	first := true
 	appendMsg := func(m []byte) {
 		b = protowire.AppendTag(b, FieldMessage, protowire.BytesType)
-		b = protowire.AppendBytes(b, m)
+		if first && nonMinimal {
+			b = append(b, 0x80|byte(len(m)), 0x00)
+			b = append(b, m...)
+		} else {
+			b = protowire.AppendBytes(b, m)
+		}
+		first = false
 	}
 	if idFirst {
 		appendID()
@@ -81,7 +89,7 @@ func H_C47_item() {
 	} else {
 		nd.Assert(c47eq(msg, want), "message bytes")
 	}
-	if !split && !withUnknown {
+	if !split && !withUnknown && !nonMinimal {
 		full := len(b) + protowire.SizeTag(FieldItem)
 		nd.Assert(SizeField(protowire.Number(id))+protowire.SizeTag(FieldMessage)+protowire.SizeBytes(len(body)) == full, "SizeField accounts for the framing")
 		// AppendFieldStart produces the canonical prefix
